@@ -1435,6 +1435,9 @@ func (g *gen) lookback(nKeysUsed int, big bool) LBS {
 		if r.Chance(12) {
 			v.Status = 0
 		}
+		if r.Chance(7) { // a status byte that is neither Offline (0) nor Online (1): not online, hence not entitled
+			v.Status = uint8(r.Pick([]uint64{2, 3, 255}))
+		}
 		if r.Chance(3) {
 			v.MainBad = true
 			v.BadForm = r.Intn(20)
